@@ -76,6 +76,11 @@ class Engine(object):
         self.c('report.%s.%s' % (monitor, kind))
         sr = getattr(self, 'seed_reassigned', None)
         if sr and isinstance(detail, dict): detail = dict(detail, seed_reassigned=sorted(map(list, sr)))
+        fc = getattr(self, 'failed_call_ctx', None)
+        if not fc and getattr(self, 'tainted', None):
+            # a session that keeps running after a failed call changed it: later reports carry that call's context
+            fc = dict(getattr(self, 'tainted_ctx', None) or {}, tainted=self.tainted)
+        if fc and isinstance(detail, dict) and monitor != 'atomic': detail = dict(detail, after_failed_call=fc)
         sd = getattr(self, 'seed_deleted', None)
         if sd and isinstance(detail, dict): detail = dict(detail, seed_deleted=sorted(sd))
         self.reports.append(Report(monitor, kind, detail))
@@ -214,6 +219,7 @@ class Engine(object):
         """pony object for a live model object, obtained in the current session."""
         p = self.h.get(oid)
         if p is not None: return p
+        if oid not in self.working.objs: raise HarnessSkip('dead object')
         o = self.working.objs[oid]
         cls = self.cls[o.ent]
         rootcls = self.cls[self.rules.ents[o.ent].root]
@@ -231,6 +237,15 @@ class Engine(object):
             else: p = rootcls[tuple(pk)] if len(pk) > 1 else rootcls[pk[0]]
         except self.orm.ObjectNotFound:
             p = None
+        except Exception as e:
+            # the lookup auto-flushes pending changes; a loud failure there (e.g. the UPDATE order of swapped unique
+            # values) is not judged: the program abandons the session
+            self.c('obtain_raised.' + type(e).__name__)
+            self.errlog.append(('obtain', type(e).__name__, str(e)[:160]))
+            try: self.orm.rollback()
+            except Exception: pass
+            self._reset_after_rollback()
+            raise HarnessSkip('obtain raised')
         if p is None:
             self.report('read', 'missing_object', {'oid': oid, 'ent': o.ent, 'pk': [repr(x) for x in pk], 'via': via})
             raise HarnessSkip('object not found')
